@@ -1299,6 +1299,21 @@ func checkSplitLoops(c *core.Ctx, st3 *core.RuleStat, rule string, pkgs []*PkgIn
 								c.ReportAt(rule, fn, s.Pos(), "slice", "a buffer is sliced as ["+short(prov.Of(s.Low))+":"+short(prov.Of(s.High))+"], not [cursor:cursor+chunk]")
 							}
 						}
+						// the page of a piece is looked up with the loop's address cursor
+						if cc := core.CallOf(in); cc != nil && len(cc.Args) >= 1 {
+							isFind := (cc.IsInvoke() && cc.Method.Name() == "Find") || (cc.StaticCallee() != nil && cc.StaticCallee().Name() == "Find")
+							if isFind && strings.Contains(strings.ToLower(prov.Of(cc.Value)), "pagetable") {
+								addrArg := cc.Args[len(cc.Args)-1]
+								okF := dependsOn(addrArg, func(v ssa.Value) bool {
+									ph, ok := v.(*ssa.Phi)
+									return ok && ph.Block() == sl.header
+								}, map[ssa.Value]bool{})
+								st3.Ob(okF)
+								if !okF {
+									c.ReportAt(rule, fn, in.Pos(), "find:cursor", "inside the splitting loop the page is looked up at "+short(prov.Of(addrArg))+", which does not move with the loop: every piece is translated with the page of the first byte, so the part of the range that lies in another page lands behind the first page's frame")
+								}
+							}
+						}
 						if cc := core.CallOf(in); cc != nil {
 							if f := core.CalleeFunc(in); f != nil && (f.Name() == "WithByteSize" || (f.Name() == "Read" && strings.HasSuffix(core.FuncID(f), "Storage.Read"))) {
 								arg := cc.Args[len(cc.Args)-1]
